@@ -29,7 +29,7 @@ func (c07) Rule() string {
 func (c07) Assumptions() []string {
 	return []string{
 		"no branch, jump, return, PLP, RTI, STP (the property's quantifier: no taken control transfer, no flag restore from the stack); MVN may re-fetch its own opcode",
-		"operands keep effective addresses below $800000 and memory fill bytes below $80 so that the unclaimed C08 defect (addresses beyond 24 bits index past the bus tables) cannot be reached; a run that still dies with an index panic inside Step is discarded and counted",
+		"operands keep effective addresses below $800000 and memory fill bytes below $80 so that the unclaimed C08 defect (addresses beyond 24 bits index past the bus tables) cannot be reached; a run in which Step panics is discarded and counted (C08's business)",
 		"the program sits in write-protected simulated memory, so no store can modify it",
 	}
 }
